@@ -16,6 +16,8 @@ def aggregates(facts, adt, variant=None):
     for b in facts.bodies.values():
         if b["kind"] == "promoted":
             continue
+        if b["name"].startswith("<") and b["name"].endswith(" as std::clone::Clone>::clone"):
+            continue        # a (derived) Clone rebuilds a copy of an existing value field by field: not a construction site
         for i, blk in enumerate(b["blocks"]):
             if blk["cleanup"]:
                 continue
